@@ -135,6 +135,14 @@ var leanType = map[string]string{"scalar": "Nat", "field": "Nat", "int": "Nat", 
 	"sopt": "Nat × Nat", "sopts": "Option (Nat × Nat)", "hash": "Bytes",
 	"ints": "List Nat", "obig": "Option Nat"}
 
+// plainErrors: errors built with fmt.Errorf and no kind, by the beginning of their message (schnorr.ParsePubKey); the
+// names are the ones the model and the harness use for them
+var plainErrors = map[string]string{
+	"nil pubkey byte string":         "SchnorrNil",
+	"bad pubkey byte string size":    "SchnorrBadSize",
+	"wrong pubkey type (not compres": "SchnorrWrongType",
+}
+
 // recordKinds are Lean structures (field access by name, update by `{ x with f := v }`) rather than tuples
 var recordKinds = map[string]bool{"hmac": true}
 
@@ -361,6 +369,7 @@ var d8entries = []d8entry{
 	{"ecckd", "ExtendedKey.Child", "childGen", false, "BipErr", "(O : Oracles)", "O", "", "", ""},
 	{"ecckd", "ExtendedKey.DeriveWithIL", "deriveWithILGen", false, "BipErr", "(O : Oracles)", "O", "", "", ""},
 	{"ecckd", "ExtendedKey.Derive", "deriveGen", false, "BipErr", "(O : Oracles)", "O", "", "", ""},
+	{"schnorr", "ParsePubKey", "schnorrParsePubKeyGen", false, "PubErr", "", "", "", "", ""},
 	{"schnorr", "Signature.Verify", "schnorrVerifyBool", true, "", "(B : Bytes → Bytes)", "B", "", "", ""},
 	{"ecckd", "FromSeed", "fromSeedGen", false, "BipErr", "(O : Oracles)", "O", "", "", ""},
 	{"ecckd", "FromBitcoinSeed", "fromBitcoinSeedGen", false, "BipErr", "(O : Oracles)", "O", "", "", ""},
@@ -395,13 +404,16 @@ type d8 struct {
 	errTerm      map[types.Object]string // error variables holding a run-time error value
 	reader       string                  // root of the io.Reader parameter (its final state is part of every result)
 	byteVars     map[string]bool         // integer variables that hold a byte (width 8)
-	pendingFacts [][2]string             // operands of a max(...) just evaluated: the variable it is assigned to exceeds both
-	optResult    map[int]bool            // *big.Int results returned from a variable declared `var x *big.Int` (may be nil)
-	extCopies    map[string]bool         // *ExtendedKey variables translated as values (no field writes allowed through them)
-	stubOK       bool                    // all parameters were understood (a typed stub can be emitted if the body fails)
-	inFold       int                     // depth of fold bodies being translated (no early exit possible there)
-	facts        map[string]bool         // "a≥b": known order facts between integer terms (dominating guards, max idiom)
-	lenDef       map[string]string       // Lean variable defined as `<bytes term>.length`
+	ghostNil     map[string]bool         // []byte parameters compared with nil: they get a Boolean companion parameter <name>IsNil
+	isParam      map[string]bool
+	namedRes     []types.Object    // named results of the function being translated
+	pendingFacts [][2]string       // operands of a max(...) just evaluated: the variable it is assigned to exceeds both
+	optResult    map[int]bool      // *big.Int results returned from a variable declared `var x *big.Int` (may be nil)
+	extCopies    map[string]bool   // *ExtendedKey variables translated as values (no field writes allowed through them)
+	stubOK       bool              // all parameters were understood (a typed stub can be emitted if the body fails)
+	inFold       int               // depth of fold bodies being translated (no early exit possible there)
+	facts        map[string]bool   // "a≥b": known order facts between integer terms (dominating guards, max idiom)
+	lenDef       map[string]string // Lean variable defined as `<bytes term>.length`
 }
 
 func (d *d8) fail(n ast.Node, format string, a ...any) {
@@ -1087,6 +1099,21 @@ func (d *d8) binary(x *ast.BinaryExpr, pre *[]*dnode) *dv {
 			}
 		}
 		l, r := d.expr(x.X, pre), d.expr(x.Y, pre)
+		if (l.kind == "bytes" && r.kind == "nil") || (r.kind == "bytes" && l.kind == "nil") {
+			e := l
+			if l.kind == "nil" {
+				e = r
+			}
+			if e.loc == nil || len(e.loc.path) != 0 || e.loc.lo != "" || !d.isParam[e.loc.root] {
+				d.fail(x, "nil test on a byte slice that is not a parameter")
+				return &dv{kind: "bool", term: "false"}
+			}
+			d.ghostNil[e.loc.root] = true
+			if x.Op == token.EQL {
+				return &dv{kind: "bool", term: e.loc.root + "IsNil"}
+			}
+			return &dv{kind: "bool", term: "(!" + e.loc.root + "IsNil)"}
+		}
 		if (l.kind == "obig" && r.kind == "nil") || (r.kind == "obig" && l.kind == "nil") {
 			e := l
 			if l.kind == "nil" {
@@ -1890,6 +1917,24 @@ func (d *d8) simple(s ast.Stmt, pre *[]*dnode) bool {
 					d.write(d.lvalue(st.Lhs[0], pre), "()", pre) // the curve object carries no data
 					return false
 				}
+				if isId && st.Tok == token.ASSIGN {
+					if l, ok := d.env[d.obj(id)]; ok && l.kind == "err" {
+						if call, ok := st.Rhs[0].(*ast.CallExpr); ok {
+							if sel, ok := call.Fun.(*ast.SelectorExpr); ok && sel.Sel.Name == "Errorf" && len(call.Args) >= 1 {
+								if lit, ok := call.Args[0].(*ast.BasicLit); ok {
+									for prefix, kind := range plainErrors {
+										if strings.HasPrefix(strings.Trim(lit.Value, "\""), prefix) {
+											d.known[d.obj(id)] = true
+											d.errTerm[d.obj(id)] = "." + kind
+											return false
+										}
+									}
+								}
+							}
+						}
+						return true
+					}
+				}
 				if isId {
 					if l, ok := d.env[d.obj(id)]; ok && l.kind == "obig" && st.Tok == token.ASSIGN {
 						v := d.expr(st.Rhs[0], pre)
@@ -2265,6 +2310,24 @@ func (d *d8) isFallibleEntry(fn *types.Func) bool {
 func (d *d8) retNode(st *ast.ReturnStmt, pre *[]*dnode) *dnode {
 	if d.retK != nil {
 		d.fail(st, "return inside an inlined helper")
+	}
+	if len(st.Results) == 0 && len(d.namedRes) > 0 {
+		// bare return: the named results as they stand; only the case "the error result has been set" is in the subset
+		eo := d.namedRes[len(d.namedRes)-1]
+		if t, ok := d.errTerm[eo]; ok && d.known[eo] {
+			return d.rt(".err " + t)
+		}
+		d.fail(st, "bare return without a known error")
+		return d.rt(".panic")
+	}
+	if len(st.Results) == 1 && d.ent.errT == "PubErr" {
+		if call, ok := st.Results[0].(*ast.CallExpr); ok {
+			if fn, _ := d.callee(call); fn != nil && fn.Name() == "ParsePubKey" && fn.Pkg().Name() == "secp256k1" {
+				// return secp256k1.ParsePubKey(b): the outcome of the model's parser (= the regenerated one, T7)
+				b := d.expr(call.Args[0], pre)
+				return d.rt("(match parsePubKey " + b.term + " with | .ok pk => .ok pk | .err pe => .err pe | .panic => .panic)")
+			}
+		}
 	}
 	res := st.Results
 	n := d.results.Len()
@@ -3390,7 +3453,7 @@ func (d *d8) retType() string {
 func passDrivers(pkgs []*Pkg) (string, []string, []string) {
 	var errs, warns []string
 	var sb strings.Builder
-	sb.WriteString("import Secp.Model.Schnorr\nimport Secp.Model.Ecdsa\nimport Secp.Model.PrivKey\nimport Secp.Model.Adaptor\nimport Secp.Model.Nonce\nimport Secp.Model.DriverRt\n/- GENERATED by tools/gotr (pass T8) from /repo — do not edit. -/\nset_option linter.unusedVariables false\nnamespace Secp.Gen.Drivers\nopen Secp.Spec Secp.Model\n\n")
+	sb.WriteString("import Secp.Model.Schnorr\nimport Secp.Model.PubKey\nimport Secp.Model.Ecdsa\nimport Secp.Model.PrivKey\nimport Secp.Model.Adaptor\nimport Secp.Model.Nonce\nimport Secp.Model.DriverRt\n/- GENERATED by tools/gotr (pass T8) from /repo — do not edit. -/\nset_option linter.unusedVariables false\nnamespace Secp.Gen.Drivers\nopen Secp.Spec Secp.Model\n\n")
 	pv := map[string]string{}
 	var body strings.Builder
 	for i := range d8entries {
@@ -3415,7 +3478,7 @@ func passDrivers(pkgs []*Pkg) (string, []string, []string) {
 			continue
 		}
 		d := &d8{pkgs: pkgs, p: p, fn: ent.key, ent: ent, env: map[types.Object]*dloc{}, known: map[types.Object]bool{}, stype: map[string]string{},
-			loopVar: map[types.Object]string{}, pv: pv, errTerm: map[types.Object]string{}, facts: map[string]bool{}, lenDef: map[string]string{}, extCopies: map[string]bool{}, byteVars: map[string]bool{}}
+			loopVar: map[types.Object]string{}, pv: pv, errTerm: map[types.Object]string{}, facts: map[string]bool{}, lenDef: map[string]string{}, extCopies: map[string]bool{}, byteVars: map[string]bool{}, ghostNil: map[string]bool{}, isParam: map[string]bool{}}
 		d.results = p.info.Defs[fd.Name].Type().(*types.Signature).Results()
 		var psig []string
 		var paramNames []string
@@ -3440,6 +3503,7 @@ func passDrivers(pkgs []*Pkg) (string, []string, []string) {
 				return
 			}
 			d.declare(id.Name, k)
+			d.isParam[id.Name] = true
 			d.env[o] = &dloc{root: id.Name, kind: k}
 			psig = append(psig, fmt.Sprintf("(%s : %s)", id.Name, leanType[k]))
 			if k == "reader" {
@@ -3454,6 +3518,18 @@ func passDrivers(pkgs []*Pkg) (string, []string, []string) {
 		for _, fld := range fd.Type.Params.List {
 			for _, nm := range fld.Names {
 				addParam(nm)
+			}
+		}
+		if fd.Type.Results != nil {
+			for _, fld := range fd.Type.Results.List {
+				for _, nm := range fld.Names {
+					o := p.info.Defs[nm]
+					d.namedRes = append(d.namedRes, o)
+					if k, _ := d.kindOf(o.Type()); k == "err" {
+						d.env[o] = &dloc{root: "?err", kind: "err"}
+						d.known[o] = false
+					}
+				}
 			}
 		}
 		d.optResult = map[int]bool{}
@@ -3540,6 +3616,16 @@ func passDrivers(pkgs []*Pkg) (string, []string, []string) {
 				if _, isPtr := d.results.At(0).Type().(*types.Pointer); !(isPtr && d.results.Len() == 1) {
 					rt = "(" + d.retType() + ") × " + d.stype[outName]
 				}
+			}
+		}
+		{
+			var gs []string
+			for g := range d.ghostNil {
+				gs = append(gs, g)
+			}
+			sort.Strings(gs)
+			for _, g := range gs {
+				psig = append(psig, fmt.Sprintf("(%sIsNil : Bool)", g))
 			}
 		}
 		fmt.Fprintf(&body, "/-- %s (%s) -/\ndef %s %s %s : %s :=\n", ent.key, strings.TrimPrefix(p.pos(fd), p.dir+"/"), ent.lean, ent.extra, strings.Join(psig, " "), rt)
